@@ -582,6 +582,12 @@ def toDragSource (cfg : Cfg) (fuel : Nat) (st : St) (src : Id) (type : Int) (ev 
   let (st, r) ← handleMouse cfg fuel st src { type := type, button := ev.button, line := ev.line - geom.top, col := ev.col - geom.left }
   dropResult cfg st r
 
+/-- DRAG_STOP: sent to the drag source (if there still is one) when the button is released. -/
+def dragStop (cfg : Cfg) (fuel : Nat) (st : St) (ev : Ev) : Out St :=
+  match st.tree.root.dragSource with
+  | none => pure st
+  | some src => toDragSource cfg fuel st src evDragStop ev
+
 /-- The synthesised events that precede the event itself. -/
 def dragPrelude (cfg : Cfg) (fuel : Nat) (st : St) (ev : Ev) : Out St :=
   let root := st.tree.root
@@ -594,23 +600,24 @@ def dragPrelude (cfg : Cfg) (fuel : Nat) (st : St) (ev : Ev) : Out St :=
   else if ev.type = evRelease && root.mouseDragging then do
     let (st, dropped) ← handleMouse cfg fuel st 0 { type := evDragDrop, button := ev.button, line := ev.line, col := ev.col }
     let st ← dropResult cfg st dropped
-    let st ← match st.tree.root.dragSource with
-      | none => (pure st : Out St)
-      | some src => toDragSource cfg fuel st src evDragStop ev
+    let st ← dragStop cfg fuel st ev
     pure { st with tree := { st.tree with root := { st.tree.root with mouseDragging := false } } }
   else pure st
+
+/-- DRAG_OUTSIDE: sent to the drag source when a DRAG was not handled by it. -/
+def dragOutside (cfg : Cfg) (fuel : Nat) (st : St) (ev : Ev) (handled : Option Id) : Out St :=
+  match st.tree.root.dragSource with
+  | some src =>
+    if ev.type = evDrag && handled ≠ some src then toDragSource cfg fuel st src evDragOutside ev
+    else pure st
+  | none => pure st
 
 /-- `on_term_mouse`. -/
 def onTermMouse (cfg : Cfg) (fuel : Nat) (st : St) (ev : Ev) : Out (St × Bool) := do
   let st ← refWin st 0                 -- tickit_window_ref(win): the root is needed between the dispatches
   let st ← dragPrelude cfg fuel st ev
   let (st, handled) ← handleMouse cfg fuel st 0 ev
-  let st ←
-    match st.tree.root.dragSource with
-    | some src =>
-      if ev.type = evDrag && handled ≠ some src then toDragSource cfg fuel st src evDragOutside ev
-      else (pure st : Out St)
-    | none => pure st
+  let st ← dragOutside cfg fuel st ev handled
   let st ← dropResult cfg st handled
   let st ← unrefLogged st 0            -- tickit_window_unref(win)
   pure (st, handled.isSome)
@@ -732,8 +739,16 @@ def keyVisits (t : Tree) : Nat → Id → Option (List Id)
       let rest ← restVisits (keyVisits t f) w
       pure (steal ++ foc ++ [win] ++ rest)
 
+/-- First occurrences, given what has been seen already. -/
+def firstOccAux (seen : List Id) : List Id → List Id
+  | [] => []
+  | x :: xs => if x ∈ seen then firstOccAux seen xs else x :: firstOccAux (x :: seen) xs
+
+/-- The list without repetitions: every element at its first occurrence. -/
+def firstOcc (l : List Id) : List Id := firstOccAux [] l
+
 /-- The reference offer order for a key event: first occurrences of `keyVisits`. -/
-def keyOrder (t : Tree) (fuel : Nat) (win : Id) : Option (List Id) := (keyVisits t fuel win).map List.eraseDups
+def keyOrder (t : Tree) (fuel : Nat) (win : Id) : Option (List Id) := (keyVisits t fuel win).map firstOcc
 
 /-- Is the cell inside the child's rectangle (cell in the parent's coordinates)? -/
 def inChild (cw : Win) (line col : Int) : Bool := !outsideChild cw line col
@@ -757,6 +772,13 @@ def mouseVisits (t : Tree) : Nat → Id → Ev → Option (List (Id × Ev))
       if !visibleChain t (treeFuel t) win then some [] else do
       let below ← visitList (childVisits t (mouseVisits t f) ev) w.children
       pure (below ++ [(win, ev)])
+
+/-- The offsets of the windows on the parent chain starting at `p` add up to `(a, b)`: a window's absolute
+    position, without fuel. -/
+inductive OriginSum (t : Tree) : Option Id → Int → Int → Prop where
+  | top : OriginSum t none 0 0
+  | step {p : Id} {pw : Win} {a b : Int} : t.wins[p]? = some pw → OriginSum t pw.parent a b →
+      OriginSum t (some p) (a + pw.rect.top) (b + pw.rect.left)
 
 /-- The windows of the subtree of `win` (through the children lists). -/
 def subtree (t : Tree) : Nat → Id → List Id
